@@ -324,6 +324,13 @@ impl ReceiveChannelReliable {
             return Ok(());
         }
 
+        if let ReliableOrder::Unordered { received_messages, .. } = &self.reliable_order {
+            if received_messages.contains(&slice.message_id) {
+                // Message already assembled and consumed while an older one is still pending
+                return Ok(());
+            }
+        }
+
         if !self.slices.contains_key(&slice.message_id) {
             let message_len = slice.num_slices * SLICE_SIZE;
             if self.memory_usage_bytes + message_len > self.max_memory_usage_bytes {
